@@ -886,6 +886,26 @@ def gen_c03(rng, n, tier):
             for _ in range(r.randint(0, 2)):
                 g.block()
             logged_out_origin(g, r)
+        elif k0 < 0.45 and not g.hub:
+            # every receipt type is judged by the rule of the chain it claims to come from — the DESTINATION: a request to a service
+            # of c3 (whose rule refuses every proof) is accepted, answered in time or left to time out, and then the receipt that
+            # would be acceptable right now (success / failure while it is open, rollback once it has timed out) is offered with
+            # a proof only the SOURCE chain's rule would accept
+            from .gen_exec import ADMIN
+            f = r.choice(["c2:s1", "c1:s1", "c4:s1", "c2:s3"])
+            idx = g.next_req.get((f, "c3:s1"), 1)
+            g.next_req[(f, "c3:s1")] = idx + 1
+            late = r.random() < 0.6
+            g.ops.append(f"block ibtp {ADMIN[f.split(':')[0]]} {f} c3:s1 {idx} req {2 if late else r.choice([0, 6])} - ok")
+            if late:
+                g.ops.append("block")
+                g.ops.append("block")
+            typ = "rb" if late else r.choice(["ok", "fail"])
+            g.ops.append("q dump")
+            g.ops.append(f"block ibtp {r.choice(['ca3', ADMIN[f.split(':')[0]]])} {f} c3:s1 {idx} {typ} 0 - ok")
+            g.ops.append("q dump")
+            g.ops.append(f"q status {f if f.count(':') == 2 else '1356:' + f}-1356:c3:s1-{idx}")
+            tags.add("receipt-of-unverifiable-destination:" + typ)
         for _b in range(r.randint(4, 10)):
             k = r.random()
             if k < 0.3:
